@@ -68,7 +68,7 @@ def _cases(shard):
                    st.sampled_from(['keys'] + (['values', 'items'] if is_map else []))),
                 op('minKey', st.one_of(st.none(), K), boom),
                 op('maxKey', st.one_of(st.none(), K), boom), op('cursor', st.sampled_from(['iter', 'keys'] + (['items', 'values'] if is_map else [])), st.integers(0, 6)),
-                op('algebra', st.sampled_from(['union', 'intersection', 'difference']), st.lists(K, max_size=8),
+                op('algebra', st.sampled_from(['union', 'intersection', 'difference', 'or', 'and', 'sub']), st.lists(K, max_size=8),
                    st.sampled_from(['Set', 'TreeSet', 'list'] + (['Bucket', 'BTree'] if is_map else [])), boom),
                 op('merge', st.lists(K, max_size=4), st.lists(K, max_size=4), st.lists(K, max_size=4), boom),
                 op('pickle'), op('badkey'), op('clear'), op('copy')]
@@ -438,7 +438,11 @@ def _step(w, t, klass, op, alive, stats, classes):
                 else:
                     other.add(kk)
             oth = (other, F.is_map(form), F.is_tree(form))
-        f = F.fn(w.fam, fn, 'c')
+        if fn in ('or', 'and', 'sub'):
+            import operator
+            f = {'or': operator.or_, 'and': operator.and_, 'sub': operator.sub}[fn]
+        else:
+            f = F.fn(w.fam, fn, 'c')
         _arm(boom if w.okey else 0)
         try:
             r = f(t, other)
